@@ -182,6 +182,23 @@ Proof.
 Qed.
 Print Assumptions C06_ugla_weights_refuted.
 
+(* Tie between the case files and the theorems: the boolean law check the harness evaluates on every OBSERVED
+   square-root precision implies (at tolerance 0) the hypothesis `sqrt_law` of C06_normal_equations_model /
+   C06_forms_agree for the precision computed from the user's input form: S^T S compared as a matrix acts as
+   v |-> S^T (S v) (all sizes). *)
+Theorem C06_sqrtprec_check_sound : forall (f : gform) (n : nat) (g : gval) (S P : list (list Qc)),
+  sqrtprec_ok 0 f n g S = true -> user_prec f n g = Some P -> sqrt_law Qc 0%Qc Qcplus Qcmult n S P.
+Proof. exact sqrtprec_ok_sound. Qed.
+Print Assumptions C06_sqrtprec_check_sound.
+
+(* ... and the per-transition certificate, at tolerance 0, is the hypothesis "the returned point satisfies the
+   normal equations" itself (the harness evaluates it at 1e-8 on floats: rounding is not modelled) *)
+Theorem C06_draw_check_sound :
+  forall (n : nat) (ls : list (list (list Qc) * list (list Qc) * list Qc)) (pr : prior Qc) (e x : list Qc),
+  check_draw 0 n ls pr e x = true -> normal_eq Qc 0%Qc Qcplus Qcmult n (mk_liks n ls) pr e x.
+Proof. exact check_draw_sound. Qed.
+Print Assumptions C06_draw_check_sound.
+
 (* non-vacuity: a concrete configuration over Qc (2 likelihoods, vector-variance noise given as sqrtprec diag(1/2, 1),
    scalar sqrtprec 2, Gaussian prior with scalar mean) meets every hypothesis of C06_normal_equations_model, and the
    point [1; 1] solves its normal equations for e = 0 *)
